@@ -103,6 +103,12 @@ def check_X(
         if coerce_to_numpy:
             X = from_nested_to_3d_numpy(X)
 
+    # a panel of integer readings is data like any other: estimators that ask
+    # for a numpy panel compute in floating point, as they do for a float
+    # panel, not in the (possibly narrow) integer type of the container
+    if coerce_to_numpy and isinstance(X, np.ndarray) and X.dtype.kind in "iub":
+        X = X.astype("float64")
+
     return X
 
 
